@@ -384,9 +384,18 @@ def request_table(ctx):
                 vals = [truth(subst_fold(v, {flags: C(f)}))
                         for f in range(8)]
                 return vals == [bool(f & 1) for f in range(8)]
+            # ... on the CALLER's connection (`self.clients[dbusCaller]`),
+            # which is what clientDisconnected walks - not on the owner's
+            callerp = ('param', rq.params()[3]) if len(
+                rq.params()) > 3 else None
             okb = any(ev[0] == 'setsub' and kind(ev[1]) == 'attr' and
                       ev[1][2] == 'busNames' and ev[1] != table and
-                      ev[2] == name and is_allow_bit(ev[3])
+                      ev[2] == name and is_allow_bit(ev[3]) and
+                      (callerp is None or contains(
+                          ev[1][1], lambda x: x == callerp) or
+                       # the caller IS the owner on this path: the head of
+                       # the queue is its connection
+                       atoms.get('IS_OWNER'))
                       for ev in iter_events(p.trace))
             ctx.ob('C13.D2', rq.qualname, 'records-allow-replacement:%s'
                    % ('already-queued' if atoms.get('QUEUED') else
